@@ -221,6 +221,10 @@ def main():
             "spliced_clauses": sum(r.get("clauses", 0) for r in unit_results),
             "vacuity_canaries": {"inserted": sum(r.get("canaries", 0) for r in unit_results), "failed_as_required": sum(r.get("canaries_failed_as_required", 0) for r in unit_results)},
             "samples": clause_samples[:60],
+            "evaluations": sum((f.get("checks") or 0) for f in functions if f.get("engine") == "kani") + sum(r.get("clauses", 0) + r.get("canaries", 0) for r in unit_results),
+            "distinct_nontrivial": len(set(f["id"] for f in functions if f.get("engine") == "kani" and (f.get("checks") or 0) > 0)) + sum(r.get("clauses", 0) for r in unit_results),
+            "rule": "evaluations = CBMC property checks evaluated by the Kani harnesses of this run + contract clauses and vacuity canaries checked by Verus; "
+                    "a case is one Kani harness with at least one reachable check, or one spliced contract clause (requires/ensures/invariant/decreases) -- all distinct by construction",
             "bounded_stand_ins_not_counted_as_proved": bounded_units,
             "not_decided": cfg.get("not_decided", []),
             "known_findings_hit": [k["what"] for k, _ in known_hits],
